@@ -767,7 +767,9 @@ fn merge_server_object_field<TCompilationProfile: CompilationProfile>(
                         field_parent_object_entity_name,
                         field_server_object_selectable_name,
                     ),
-                    &server_object_selectable.initial_variable_context(),
+                    // The selection set below an `asFoo` refinement belongs to the
+                    // enclosing client field, so it can use that field's variables.
+                    variable_context,
                 );
             }
         }
